@@ -1124,7 +1124,16 @@ func (it *Interp) equal(a, b Value) Value {
 			return x == nil && y == nil
 		}
 	case IntV:
+		// pointer identity of the underlying *big.Int: decidable when one side is the zero value
+		if y, ok := b.(IntV); ok && (x.Nil || y.Nil) {
+			return x.Nil && y.Nil
+		}
 		panic(unsupported("== on math.Int"))
+	case DecV:
+		if y, ok := b.(DecV); ok && (x.Nil || y.Nil) {
+			return x.Nil && y.Nil
+		}
+		panic(unsupported("== on two non-nil math.LegacyDec (pointer identity)"))
 	case TimeV:
 		y := b.(TimeV)
 		return mkCmp("=", x.NS, y.NS)
